@@ -13,8 +13,8 @@
    exact verdict, exact return value; a failure alone is spec drift).                               *)
 EXTENDS ChainExchange, Json, TLCExt
 CONSTANT TraceFile
-VARIABLES l, obs, ow, od, bad, cov
-tvars == <<cxvars, l, obs, ow, od, bad, cov>>
+VARIABLES l, obs, ow, od, bad, cov, nstrict
+tvars == <<cxvars, l, obs, ow, od, bad, cov, nstrict>>
 
 TraceLog == ndJsonDeserialize(TraceFile)
 NoObs == [kind |-> "none"]
@@ -28,9 +28,9 @@ ToMap(dump) ==
 See == ow' = ToMap(Ev.w) /\ od' = ToMap(Ev.d)
 
 Cov0 == [hit |-> 0, stored |-> 0, fits |-> 0, retainedKeys |-> 0, retainedLookup |-> 0, evicted |-> 0,
-         badMsg |-> 0, accepted |-> 0, pruneBoth |-> 0]
+         badMsg |-> 0, accepted |-> 0, pruneBoth |-> 0, strictOnly |-> 0]
 TInit == /\ CxInit([capW |-> 1, capD |-> 1, lookahead |-> 0, maxAge |-> 0, maxLen |-> 1], [id |-> 0, input |-> NoChain, now |-> 0])
-         /\ l = 1 /\ obs = NoObs /\ ow = <<>> /\ od = <<>> /\ bad = {} /\ cov = Cov0
+         /\ l = 1 /\ obs = NoObs /\ ow = <<>> /\ od = <<>> /\ bad = {} /\ cov = Cov0 /\ nstrict = 0
 
 TrReset ==
   /\ IsEvent("Reset")
@@ -47,12 +47,13 @@ TrLookup ==
 
 TrOwn ==
   /\ IsEvent("Own") /\ OwnBroadcast(Ev.inst, Ev.chain) /\ See
-  /\ obs' = [kind |-> "Filed", inst |-> Ev.inst, chain |-> Ev.chain, pre |-> OwnPreOn(At(ow, Ev.inst), Ev.chain)]
+  /\ obs' = [kind |-> "Filed", inst |-> Ev.inst, chain |-> Ev.chain, pre |-> OwnPreOn(At(ow, Ev.inst), Ev.chain),
+             fits |-> Len(Ev.chain) <= cfg.capW]
 
 TrAdmit ==
   /\ IsEvent("Admit") /\ RemoteAdmit(Ev.inst, Ev.chain) /\ See
   /\ obs' = [kind |-> "Filed", inst |-> Ev.inst, chain |-> Ev.chain,
-             pre |-> AdmitPreOn(At(ow, Ev.inst), At(od, Ev.inst), Ev.chain)]
+             pre |-> AdmitPreOn(At(ow, Ev.inst), At(od, Ev.inst), Ev.chain), fits |-> Len(Ev.chain) <= cfg.capD]
 
 Msg == [shape |-> Ev.shape, inst |-> Ev.inst, chain |-> Ev.chain, ts |-> Ev.ts]
 TrDeliver ==
@@ -60,7 +61,8 @@ TrDeliver ==
   /\ obs' = [kind |-> "Deliver", msg |-> Msg, verdict |-> Ev.verdict, expect |-> Verdict(Msg), isBad |-> Bad(Msg),
              handed |-> [inst |-> Ev.vinst, chain |-> Ev.vchain, ts |-> Ev.vts],
              inst |-> Ev.inst, chain |-> Ev.chain,
-             pre |-> Ev.verdict = "accept" /\ AdmitPreOn(At(ow, Ev.inst), At(od, Ev.inst), Ev.chain)]
+             pre |-> Ev.verdict = "accept" /\ AdmitPreOn(At(ow, Ev.inst), At(od, Ev.inst), Ev.chain),
+             fits |-> Ev.verdict = "accept" /\ Len(Ev.chain) <= cfg.capD]
 
 TrPrune ==
   /\ IsEvent("Prune") /\ Prune(Ev.n) /\ See
@@ -81,6 +83,11 @@ C18_OnlyAdmitted == IsLookupHit => <<obs.inst, obs.ret>> \in admitted
 C18_LookupFinds == (obs.kind = "Lookup" /\ obs.wasStored) => IsLookupHit
 \* directly after an admit of a chain that fits, every prefix is held (and LookupFinds makes it retrievable)
 C18_AdmitRetrievable == (obs.kind \in {"Filed", "Deliver"} /\ obs.pre) => RetrievableAll(ow, od, obs.inst, obs.chain)
+\* the property's sentence without that precondition: "after a node admits a chain, that chain and every prefix
+\* of it can be retrieved".  Where the conditional clause holds, a failure of this one is exactly the pattern
+\* "a prefix that was already held is not refreshed and is evicted by the chain's own remaining prefixes"
+\* (known finding F10; pubsub.go ContainsOrAdd / Peek-skip).  Reported separately from `bad`.
+C18_AdmitRetrievableStrict == (obs.kind \in {"Filed", "Deliver"} /\ obs.fits) => RetrievableAll(ow, od, obs.inst, obs.chain)
 \* solicited chains survive unsolicited traffic
 C18_WantedRetained ==
   /\ Retained(ow, od)
@@ -110,6 +117,7 @@ CovStep ==
           evicted |-> cov.evicted + B(obs'.kind \in {"Filed", "Deliver"} /\ obs'.chain # NoChain
                                       /\ \E k \in Keys(At(od, obs'.inst)) : k \notin Keys(At(od', obs'.inst)) /\ k \notin Keys(At(ow', obs'.inst))
                                       /\ \E p \in ata' : p[1] = obs'.inst /\ Cardinality(KeysAt(ever', p[1])) <= cfg'.capW),
+          strictOnly |-> cov.strictOnly + B(~C18_AdmitRetrievableStrict /\ C18_AdmitRetrievable)',
           badMsg |-> cov.badMsg + B(obs.kind = "Deliver" /\ obs.isBad)',
           accepted |-> cov.accepted + B(obs.kind = "Deliver" /\ obs.verdict = "accept")',
           pruneBoth |-> cov.pruneBoth + B(obs.kind = "Prune" /\ (\E i \in DOMAIN obs.preW \cup DOMAIN obs.preD : i < obs.n)
@@ -126,6 +134,9 @@ TStep == /\ TNext
          /\ LET nb == {c \in Clauses : ~(Holds(c))'} IN
               /\ bad' = bad \cup {<<l, c>> : c \in nb}
               /\ (nb = {} \/ Cardinality(bad) > 40 \/ PrintT(<<"VERIF_BAD", l, nb>>))
+         /\ IF C18_AdmitRetrievableStrict' THEN nstrict' = nstrict
+            ELSE /\ nstrict' = nstrict + 1
+                 /\ (nstrict >= 3 \/ PrintT(<<"VERIF_BAD", l, {"C18_AdmitRetrievableStrict"}>>))
          /\ CovStep
          /\ (l' <= Len(TraceLog) \/ PrintT(<<"VERIF_COV", ToJson(cov')>>))
 TSpec == TInit /\ [][TStep]_tvars
